@@ -143,7 +143,7 @@ def foreign_tokens(blocks, fmts):
 class C02(Property):
     ID = "C02"
     SESSIONS = ["s0", "s1"]
-    RUNS = {"quick": (1500, 1500), "thorough": (30000, 30000)}
+    RUNS = {"quick": (5000, 5000), "thorough": (100000, 100000)}
 
     def config(self, rng, tier, faulty):
         cfg = {
